@@ -38,6 +38,10 @@ func (db *DB) Association(column string) *Association {
 		association.Error = err
 	}
 
+	// every operation of the association derives its statements from this handle:
+	// make it reusable, so that one operation does not change what the next one sees
+	association.DB = db.Session(&Session{})
+
 	return association
 }
 
